@@ -492,6 +492,29 @@ func runC01(c *Ctx) {
 			rep.Eval("reject/Sm2Verify/" + pt.name)
 			rep.Count("perturbations", 1)
 		}
+		// the digest-taking form lets the caller choose e: with s = n - r (so t = r + s = 0 mod n) the point [s]G + [t]P is
+		// [s]G whatever the key, and e := r - x([s]G) makes the final comparison come out equal — a forgery for *every*
+		// public key unless t = 0 is rejected. (Through the message-taking forms e cannot be chosen, which is why the
+		// t = 0 check is invisible there.)
+		for k := 0; k < 2; k++ {
+			fr := new(big.Int).SetBytes(r.Bytes(32))
+			fr.Mod(fr, new(big.Int).Sub(ref.N, big.NewInt(1))).Add(fr, big.NewInt(1))
+			fs := new(big.Int).Sub(ref.N, fr)
+			if fs.Sign() == 0 {
+				continue
+			}
+			x1 := ref.MulG(fs).X
+			fe := new(big.Int).Sub(fr, x1)
+			fe.Mod(fe, ref.N)
+			w := map[string]interface{}{"forgery": "s = n - r, e = r - x([s]G)", "r": fr.Text(16), "s": fs.Text(16), "e": fe.Text(16), "px": sg.key.x.Text(16), "py": sg.key.y.Text(16)}
+			var acc bool
+			if pi := mon.Guard(func() { acc = sm2.Verify(sg.key.pub(), ref.Pad32(fe), fr, fs) }); pi != nil {
+				rep.Violation("C01/Verify(hash)/panic/"+pi.Func+"/forged-digest", pi.Value, w)
+			} else if acc && !ref.VerifyE(sg.key.x, sg.key.y, fe, fr, fs) {
+				rep.Violation("C01/Verify(hash)/accepts/forged-digest-with-r+s=n", "a (digest, r, s) triple made without any private key verifies", w)
+			}
+			rep.Eval("reject/Verify(hash)/forged-digest-with-r+s=n")
+		}
 		// DER manglings through PublicKey.Verify (default ID only)
 		if len(sg.id) == 0 || bytes.Equal(sg.id, ref.DefaultUID) {
 			good := derSig(sg.r, sg.s)
